@@ -34,21 +34,29 @@ def replay(case):
     H = np.array(case["H"], dtype=float) / S
     frames = [np.array(f, dtype=float) / S for f in case["frames"]]
     nb = case["nbins"]
-    detail = {k: case[k] for k in ("id", "H", "ppp", "S", "types", "frames", "wn", "sharp", "Hs", "tys")}
+    detail = {k: case[k] for k in ("id", "H", "ppp", "S", "types", "frames", "wn", "sharp", "Hs", "tys", "ts")}
     if case["nbins_on_integer"] and not case["dyadic_scale"]:
         return ("tie", "nbins", None, False)
     tmp = tempfile.mkdtemp(prefix="verif_c03_")
     try:
         from PyMatterSim.reader.reader_utils import Snapshots
         # per-frame cell (sheared at constant edge lengths) and per-frame species labels as the spec gives them
-        ss = [common.make_snapshot(f, case["tys"][i], np.array(case["Hs"][i], dtype=float) / S, i) for i, f in enumerate(frames)]
+        ss = [common.make_snapshot(f, case["tys"][i], np.array(case["Hs"][i], dtype=float) / S, case["ts"][i])
+              for i, f in enumerate(frames)]
         snaps = Snapshots(nsnapshots=len(ss), snapshots=ss)
         before = [(s.positions.copy(), s.particle_type.copy()) for s in snaps.snapshots]
         csv = os.path.join(tmp, "gr.csv")
         try:
-            df = gr(snaps, ppp=np.array(case["ppp"]), rdelta=case["wn"] / S, outputfile=csv).getresults()
+            obj = gr(snaps, ppp=np.array(case["ppp"]), rdelta=case["wn"] / S, outputfile=csv)
+            df = obj.getresults()
+            # history on ONE object: PairHist is a function of the configuration, so asking the same object again
+            # (every third case) must return the same table
+            df2 = obj.getresults() if case.get("id", 0) % 3 == 0 else None
         except Exception as e:  # the routine delivers no result on a valid input
             return ("violation", f"raises:{type(e).__name__}", dict(detail, error=str(e)[:200]), True)
+        if df2 is not None and not (list(df2.columns) == list(df.columns) and df2.shape == df.shape
+                                    and np.allclose(df2.values, df.values, rtol=1e-12, atol=1e-12, equal_nan=True)):
+            return ("violation", "History:SecondCallOnSameObjectDiffers", detail, True)
         for (p0, t0), s in zip(before, snaps.snapshots):
             if not (np.array_equal(p0, s.positions) and np.array_equal(t0, s.particle_type)):
                 return ("violation", "InputUnchanged", detail, True)
@@ -133,6 +141,8 @@ def gen_records(rng, n):
                 rng.shuffle(t)
                 tys.append(t)
             rec["tys"] = tys
+        if nf > 1 and rng.random() < 0.35:      # timestep labels that repeat (independent samples, reset_timestep)
+            rec["ts"] = [rng.choice([0, 100]) for _ in range(nf)] if rng.random() < 0.6 else [0] * nf
         recs.append(rec)
     return recs
 
